@@ -64,12 +64,22 @@ def die(how):
     if how == "SIGKILL":
         os.kill(os.getpid(), signal.SIGKILL)
     elif how not in ("SIGSEGV", "exit", "SIGTERM"):
+        try:
+            # the check may have been started with some signals ignored (nohup: SIGHUP; a background job of a shell
+            # without job control: SIGINT, SIGQUIT) and workers inherit that: restore the default action first
+            signal.signal(signum(how), signal.SIG_DFL)
+        except (ValueError, OSError):
+            pass
         os.kill(os.getpid(), signum(how))      # default action of every signal used here: terminate
         time.sleep(30)
     elif how == "SIGSEGV":
         import faulthandler
         faulthandler._sigsegv()
     elif how == "SIGTERM":
+        try:
+            signal.signal(signal.SIGTERM, signal.SIG_DFL)
+        except (ValueError, OSError):
+            pass
         os.kill(os.getpid(), signal.SIGTERM)
         time.sleep(30)
     raise RuntimeError("unknown way to die: %r" % (how,))
